@@ -203,7 +203,7 @@ func vpH_C07_peerdown() {
 func vpHeartbeatStep(P int, params GossipSubParams, ticks0 uint64) { vpHeartbeatStepX(P, params, ticks0, false) }
 
 func vpHeartbeatStepX(P int, params GossipSubParams, ticks0 uint64, allInMesh bool) {
-	w := vpNewWorld(vpWorldCfg{P: P, params: params, scoring: true, direct: true, noFanout: true, allInMesh: allInMesh})
+	w := vpNewWorld(vpWorldCfg{P: P, params: params, scoring: true, direct: true, noFanout: true, allInMesh: allInMesh, concreteScores: allInMesh})
 	gs := w.n.gs
 	vpAssume(w.joined)
 	gs.heartbeatTicks = ticks0
@@ -317,7 +317,7 @@ func vpHeartbeatStepX(P int, params GossipSubParams, ticks0 uint64, allInMesh bo
 		vpAssert(added-addedOutb <= maxInt(0, D-m1), "outside opportunistic ticks, additions beyond the under-subscription refill are outbound peers only")
 	}
 	w.assertInv(true)
-	if Dlo > 0 && P > D {
+	if Dlo > 0 && P > D && !allInMesh {
 		vpCover(m1 < Dlo && cand > D-m1, "under-subscribed with spare candidates")
 	}
 	if Dhi <= P {
@@ -357,9 +357,24 @@ func vpHT_C07_heartbeat_p4b() { vpOpt("unwind", 10); vpHeartbeatStep(4, vpParams
 // (P=5 with (4,2,4,1,1) was tried: 578k terms, the solver does not even decide satisfiability of the assumptions in 600 s — outside)
 // outbound quota: Dout=1 with a mesh that is within [Dlo,Dhi) — the step "do we have enough outbound peers?" runs alone
 func vpH_C07_heartbeat_out() { vpOpt("unwind", 10); vpHeartbeatStep(3, vpParamsTuple(4, 2, 4, 1, 1), 0) }
-// (over-subscription WITH an outbound quota needs D >= 4, hence P >= 5: tried with membership concrete and only scores and
-// connection directions symbolic - any permutation: no result in 50 minutes; identity shuffle: 16 minutes of evaluation
-// alone, then the queries did not finish in the 25 minutes given. Outside; vpHeartbeatStepX(5, ..., true) is kept for it.)
+// over-subscription WITH an outbound quota (Dout >= 1 needs D >= 4, Dout >= 2 needs D >= 6, so the cut needs meshes of 5
+// and 7): membership and scores CONCRETE (every peer is a mesh member; peer i scores P-i, so the sort is concrete), ONE
+// outcome of the two shuffles (identity) - and the connection DIRECTION of every peer symbolic: since the peers differ
+// in nothing else, every pattern of outbound / inbound over the sorted positions (all 2^5 resp. 2^7) is inside: the cut
+// to D keeps the best Dscore and rotates outbound members in until min(Dout, available) of them are kept.
+// (With symbolic scores or "any permutation" the same harness did not finish: 50 minutes / 16 minutes of evaluation.)
+func vpH_C07_heartbeat_cut5() {
+	vpOpt("unwind", 12)
+	vpOpt("idshuffle", 1)
+	vpOpt("native", 0) // (a native run draws its own shuffle: counterexamples are confirmed by concrete re-execution in the engine)
+	vpHeartbeatStepX(5, vpParamsTuple(4, 2, 4, 1, 1), 0, true)
+}
+func vpH_C07_heartbeat_cut7() {
+	vpOpt("unwind", 12)
+	vpOpt("idshuffle", 1)
+	vpOpt("native", 0)
+	vpHeartbeatStepX(7, vpParamsTuple(6, 3, 6, 1, 2), 0, true)
+}
 func vpH_C07_heartbeat_zero() { vpOpt("unwind", 10); vpHeartbeatStep(3, vpParamsTuple(0, 0, 0, 0, 0), 0) }
 
 // graftprune: the heartbeat's coalescing sender. Arbitrary per-peer GRAFT and PRUNE topic lists over two topics (a peer
